@@ -79,7 +79,7 @@ def run(ctx):
     ctx.tlc_gen("MC_Solver", MC.format(legacy="FALSE"), "contract", workers=4)
     rng = random.Random(ctx.seed)
     nprob = 18 if q else 54
-    nseed = 1 if q else 3
+    nseed = 1 if q else 8
     iters = (0, 6, 12, 20) if q else (0, 6, 12, 20, 40)
     pops = (5, 8, 12) if q else (5, 8, 12, 25)
     scripts = []
@@ -91,7 +91,7 @@ def run(ctx):
                 scripts.append([step])
     for s in SO + MO:
         for p in tie_problems(q):
-            for _ in range(2 if q else 4):
+            for _ in range(2 if q else 8):
                 step = dict(p)
                 step.update({"op": "Pair", "solver": s, "seed": rng.randrange(1, 2 ** 31 - 1)})
                 scripts.append([step])
@@ -101,7 +101,7 @@ def run(ctx):
                "Iter events are the entries of the returned history (the solvers offer no per-iteration callback)",
                "multi-objective solvers: `history` is compared across the pair but not required to be monotone (the crate documents it as "
                "'hypervolume or min of first objective'); domination is Deb's constrained domination with the harness's own penalties",
-               "tie problems (optimum on a face of the box, piecewise-constant objective): 6 shapes x %d seeds per solver" % (2 if q else 4),
+               "tie problems (optimum on a face of the box, piecewise-constant objective): 6 shapes x %d seeds per solver" % (2 if q else 8),
                "problems: dimensions 1-6, boxes %s, objectives %s, optional half-space penalty, population %s, iterations %s; "
                "%d problems x %d seeds per solver, %d solvers (variants of Rao, QO-Rao and MO-BMWR counted separately)"
                % (BOXES, OBJS, list(pops), list(iters), nprob, nseed, len(SO + MO)))
